@@ -12,6 +12,9 @@ MODEL_CFGS = {
     "os2_max1": {
         "tla": {"Pts": "Pts_os2_cap1", "EvMax": "EvMax_os1"},
         "points": [("os", 0, 1, 130), ("os", 1, 2, 130)], "evmax": [0, 0, 0, 0, 0, 0, 0, 1]},
+    "os_big": {
+        "tla": {"Pts": "Pts_os_big", "EvMax": "EvMax_mixed"},
+        "points": [("bi", 0, 2, 0), ("os", 0, 1, 250)], "evmax": [2, 0, 0, 0, 0, 0, 0, 2]},
     "mixed": {
         "tla": {"Pts": "Pts_mixed", "EvMax": "EvMax_mixed"},
         "points": [("bi", 0, 2, 0), ("os", 0, 1, 130)], "evmax": [2, 0, 0, 0, 0, 0, 0, 2]},
@@ -120,6 +123,11 @@ def _steps_of(hist, name):
             elif f == "write_rst":
                 st["fn"] = "write"
                 st["hdrs"] = [{"g": 80, "v": 1, "q": 0, "start": 7, "stop": 7, "data": "00"}]
+            elif f == "write2":
+                st["fn"] = "write"
+                ixs = [4, 7] if h.get("ob") == "bg" else [7, 4]
+                st["hdrs"] = [{"g": 80, "v": 1, "q": 0, "start": i, "stop": i, "data": "00"} for i in ixs]
+                st["tag"] = {"cls": "reject"}
             elif f == "unkfn":
                 st["fn"] = 112
                 st["hdrs"] = []
